@@ -119,7 +119,7 @@ def run(c):
     S = core.NCPU
     n_moves = int((100000 if quick else 4000000) * c.scale)
     n_pgn = int((6000 if quick else 300000) * c.scale)
-    n_garb_asan = int((400000 if quick else 40000000) * c.scale)
+    n_garb_asan = int((400000 if quick else 16000000) * c.scale)
     n_garb_rel = int((600000 if quick else 20000000) * c.scale)
     hfiles = []
 
@@ -155,7 +155,7 @@ def run(c):
                   "garbage_asan": "garbage-asan-ubsan", "garbage_rel": "garbage-rel"}[name], res[a:b])
         st[name] = core.merge_stats(res[a:b])
     # garbage UCI lines into a live engine
-    n_sess = int((48 if quick else 2000) * c.scale)
+    n_sess = int((48 if quick else 800) * c.scale)
     ulines = 0
     udist = set()
     with concurrent.futures.ThreadPoolExecutor(max_workers=S) as ex:
@@ -179,7 +179,7 @@ def run(c):
         B.build([("fuzz", "h_fuzz")])
         corpus = os.path.join(core.TMP, "c17_corpus_%d" % os.getpid())
         os.makedirs(corpus, exist_ok=True)
-        fr = core.run_many([[B.exe("fuzz", "h_fuzz"), "-runs=3000000", "-max_len=4096", "-seed=%d" % (c.seed * 100 + i), "-print_final_stats=1",
+        fr = core.run_many([[B.exe("fuzz", "h_fuzz"), "-runs=1000000", "-max_len=4096", "-seed=%d" % (c.seed * 100 + i), "-print_final_stats=1",
                              os.path.join(corpus, str(i))] for i in range(S) if not os.makedirs(os.path.join(corpus, str(i)), exist_ok=True)],
                            env={"ASAN_OPTIONS": "detect_leaks=0:abort_on_error=0"}, timeout=14400)
         for r in fr:
